@@ -34,11 +34,12 @@ def run(ctx):
             raise vlib.Infra("robust driver failed: " + p.stderr[-2000:])
     lines = vlib.read_ndjson(tpath) if os.path.exists(tpath) else []
     # heavy cases in child processes with a time limit: deep nesting
-    heavy = [] if quick else [4096, 16384]
+    # depth 0 = the deepest nest a 16 MiB message can hold (about two million levels), decode only
+    heavy = [0] if quick else [4096, 16384, 0]
     for depth in heavy:
         tp = os.path.join(d, "nest%d.ndjson" % depth)
         try:
-            ph = vlib.run_harness(ctx.harness, ["robust", "-out", tp, "-n", str(depth), "-x", "one=nest", "-repo", vlib.REPO], timeout=60 if quick else 300)
+            ph = vlib.run_harness(ctx.harness, ["robust", "-out", tp, "-n", str(depth), "-x", "one=nest" if depth else "one=maxnest", "-repo", vlib.REPO], timeout=120 if quick else 300)
             if ph.returncode != 0:
                 died.append("nested depth %d: %s" % (depth, ph.stderr[-300:]))
             else:
@@ -63,7 +64,7 @@ def run(ctx):
     cov = dict(states=g["distinct"] + st["distinct"], transitions=g["generated"] + st["generated"],
                traces_validated_against_impl=len(lines), evaluations=len(lines) + sum(len(l["post"]) for l in lines), distinct_nontrivial=len(keys),
                rule="inputs = every state of spec/CorruptGen.tla (five base messages incl. nested groups x every length field at every depth set to each boundary value, every flag bit flipped, truncation at every offset; thorough: pairs) "
-                    "+ lengths claimed but not supplied (message and AVP) + groups nested 1..4096 deep (thorough: up to 65536, child processes) + seeded random byte strings and random mutations of valid messages; each offered to ReadMessage, DecodeHeader, "
+                    "+ lengths claimed but not supplied (message and AVP) + groups nested 1..4096 deep, and the deepest nest a 16 MiB message can hold in a child process (thorough: further depths in child processes) + seeded random byte strings and random mutations of valid messages; each offered to ReadMessage, DecodeHeader, "
                     "DecodeAVP, DecodeGrouped and every datatype decoder, with String / PrettyDump / Serialize / Unmarshal / FindAVP(s) / FindAVPsWithPath on every decoded message; every input differs from a valid message (non-trivial); distinct by (mutation, entry point)",
                samples=[dict(recipe=l["recipe"], entry=l["entry"], n=l["n"], outcome=l["outcome"], alloc_kb=l["alloc_kb"], hex=l["hex"]) for l in lines[7:len(lines):max(1, len(lines) // 3)]][:3],
                exhaustive=False, not_judged_slow=slow, rejected=len(bad), known_finding_hits={k: n for k, (n, _) in v.hits.items()})
